@@ -336,7 +336,7 @@ var clauseKeywords = map[string]bool{
 	"requires": true, "ensures": true, "establishes": true, "modifies": true, "loop": true, "at": true,
 	"property": true, "nopanic": true, "reveal": true, "pure": true, "func": true,
 	"ghost": true, "lemma": true, "axiom": true, "extern": true, "fresh": true,
-	"maypanic": true, "regex": true, "globalfact": true, "constmap": true, "objinvariant": true, "entryfact": true, "encapsulated": true, "inline": true, "boundary": true, "immutable": true, "bounded": true, "opaque": true, "pathflag": true,
+	"maypanic": true, "regex": true, "globalfact": true, "constmap": true, "noblock": true, "objinvariant": true, "entryfact": true, "encapsulated": true, "inline": true, "boundary": true, "immutable": true, "bounded": true, "opaque": true, "pathflag": true,
 }
 
 func (p *parser) parseExpr(minPrec int) (Expr, error) {
@@ -970,6 +970,11 @@ func (p *parser) parseClauses(fc *FuncContract) error {
 		case "maypanic":
 			p.next()
 			fc.MayPanic = true
+		case "noblock":
+			// the function performs no blocking channel operation: no send, no receive, no select
+			// without a default (decided on the SSA; mutex acquisition is not a channel operation)
+			p.next()
+			fc.Clauses = append(fc.Clauses, &Clause{Kind: "noblock", Text: "no blocking channel operation"})
 		case "boundary":
 			p.next()
 			fc.Boundary = true
